@@ -30,6 +30,8 @@ CLAIMS["C10"] = ("Every forwarding path consults every filter dimension on all o
 
 CLAIMS["C15"] = ("The Lua scripts embedded in the Redis election are parsed by the checker and every script path enumerated: lease written and 1 answered exactly when the lease is absent or owned by the caller, created with expiry, extended with the ttl; resign deletes only the caller's lease; the Go wrappers map reply 1 to leader and any error to candidate+error; one atomic EVAL per operation; any renewal error closes the running syncer; stop precedes resign; the configuration clamp renew <= lease/3 is the last write of both fields.", "3/C15")
 
+CLAIMS["C20"] = ("Every path of RdbReplay.Replay is enumerated (RESTORE retry unrolled once): probe and DEL only for the first chunk with the probe's error tested; under ignore no write follows 'key exists', the key is remembered and later chunks consult the memo; under error a non-nil return precedes any write; under replace DEL precedes the expansion / REPLACE precedes the retry; both policy switches cover exactly the three policies; the bidirectional builder records and looks up its memo under the same key.", "3/C20")
+
 NOT_YET = "check not built yet in this revision (planned, see DESIGN.md section 3)"
 
 def main():
